@@ -295,8 +295,70 @@ def check_once(case):
     return {"nontrivial": k >= 2 or exp == 0, "labels": [f"k={k}", f"template{case['t']}"], "sample": src}
 
 
+# ---------------------------------------------------------------------------------------------
+# (4) containers are lazy through the operations that only move elements around: a DEAD neighbour (element, field, default,
+# unused argument) is never evaluated when only E is consumed, and a DEAD element is never evaluated when only the size / the
+# names / the type of the container is asked for. (D = dead expression, E = the live one. std.foldl/foldr are deliberately
+# absent: their accumulator is forced at every step by definition.)
+LAZY = [
+ "([D, E] + [D])[1]", "([D] + [E, D])[1]", "[D, E, D][1:2][0]", "[D, E, D][1:][0]", "[D, E, D][:2][1]", "[D, E, D, E][1::2][0]", "std.reverse([D, E])[0]",
+ "std.map(function(x) x, [D, E])[1]", "std.map(function(x) [x], [D, E])[1][0]", "std.mapWithIndex(function(i, x) x, [D, E])[1]",
+ "std.makeArray(2, function(i) if i == 0 then D else E)[1]", "std.repeat([D, E], 2)[3]", "[x for x in [D, E]][1]", "[[x, y] for x in [D, E] for y in [D]][1][0]",
+ "[std.length([D, D]), E][1]", "std.filter(function(x) true, [D, E])[1]", "std.slice([D, E, D], 1, 2, 1)[0]", "std.flattenArrays([[D], [E]])[1]", "std.join([], [[D], [E]])[1]",
+ "std.get({a: E}, 'a', D)", "std.get({a: D}, 'b', E)", "std.objectValues({a: D, b: E})[1]", "std.objectValuesAll({a:: D, b: E})[1]", "std.objectKeysValues({a: D, b: E})[1].value",
+ "({a: D} + {b: E}).b", "({a: D, b: D} + {b: E}).b", "{a: D, b: E}.b", "{a: D, b: E}['b']", "std.objectRemoveKey({a: D, b: E}, 'a').b", "std.objectRemoveKey({a: D, b: E}, 'c').b",
+ "std.mapWithKey(function(k, v) v, {a: D, b: E}).b", 
+ "std.sort([{k: 2, v: D}, {k: 1, v: E}], function(o) o.k)[0].v", "std.uniq([{k: 1, v: E}, {k: 1, v: D}], function(o) o.k)[0].v", "std.set([{k: 2, v: D}, {k: 1, v: E}], function(o) o.k)[0].v",
+ "std.minArray([{k: 2, v: D}, {k: 1, v: E}], function(o) o.k).v", "std.maxArray([{k: 2, v: E}, {k: 1, v: D}], function(o) o.k).v",
+ "[std.objectFields({a: D}), E][1]", "[std.objectHas({a: D}, 'a'), E][1]", "['a' in {a: D}, E][1]", "[std.length({a: D}), E][1]", "[std.type([D]), E][1]", "[std.isArray([D]), std.isObject({a: D}), E][2]",
+ "[std.length(function(x=D) x), E][1]", "std.trace('m', E)", "(function(a, b) b)(D, E)", "(function(a=D, b=E) b)()", "local a = D, b = E; b", "local f(x) = E; f(D)",
+ "{a: D, b: E, c: self.b}.c", "{local a = D, b: E}.b", "{a: D, b:: E}.b", "[D, E][std.length([D])]", "if true then E else D", "if false then D else E", "if true || D then E", "if false && D then D else E",
+ "std.setMember(1, [1]) && true || D", "std.all([]) || D", "std.objectFieldsAll({a:: D, b: E}) == ['a', 'b'] || D",
+ "std.mergePatch({a: 1}, {b: 2}).b * 0 + 1 == 1 || D", "std.member([1], 1) || D", "std.find(1, [1]) == [0] || D",
+ "std.objectValues(std.objectRemoveKey({a: D, b: E}, 'a'))[0]", "std.reverse([D, E] + [D])[1]", "std.repeat([D], 3)[1:2] == [] || true", "std.length(std.repeat([D], 3)) == 3 || D",
+ "std.length([D for x in [1, 2]]) == 2 || D", "std.length({[k]: D for k in ['a', 'b']}) == 2 || D", "std.length(std.map(function(x) D, [1, 2])) == 2 || D", "std.length(std.makeArray(3, function(i) D)) == 3 || D",
+ "std.length([D] + [D]) == 2 || D", "std.length([D, D][1:]) == 1 || D", "std.length(std.reverse([D, D])) == 2 || D", "std.length(std.objectValues({a: D})) == 1 || D",
+ "std.length(std.flattenArrays([[D], [D]])) == 2 || D", "std.length(std.filter(function(x) true, [D, D])) == 2 || D", "std.length(std.mapWithIndex(function(i, x) D, [1])) == 1 || D",
+ "std.range(1, 3)[1] == 2 || D", "std.length(std.flatMap(function(x) [D], [1, 2])) == 2 || D", "std.length(std.filterMap(function(x) true, function(x) D, [1, 2])) == 2 || D",
+ "std.length(std.mapWithKey(function(k, v) D, {a: 1})) == 1 || D", "std.length(std.objectKeysValues({a: D})) == 1 || D", "std.length(std.slice([D, D, D], 0, 2, 1)) == 2 || D",
+ "std.length(std.sort([D])) == 1 || D", "std.length(std.uniq([D])) == 1 || D", "std.length(std.set([D])) == 1 || D", "std.length(std.join([D], [[1], [2]])) == 3 || D",
+ "std.length(std.remove([1, D], 1)) == 1 || D", "std.length(std.removeAt([D, D], 0)) == 1 || D",
+]
+
+
+@st.composite
+def lazy_case(draw):
+    return {"t": draw(st.integers(0, len(LAZY) - 1)), "dead": draw(st.sampled_from(["error", "trace"])),
+            "live": draw(st.one_of(V.typed_values(max_leaves=3), st.just("ERROR")))}
+
+
+def check_lazy(case):
+    tmpl = LAZY[case["t"]]
+    d = "error 'DEAD'" if case["dead"] == "error" else "std.trace('DEAD', null)"
+    e = "error 'LIVE'" if case["live"] == "ERROR" else "(" + V.to_jsonnet(case["live"]) + ")"
+    src = tmpl.replace("D", "\0").replace("E", e).replace("\0", d)
+    r = util.request({"op": "eval", "src": src, "want": ["multi", "typed"], "fuel": 1_000_000}, what=src)
+    r0 = util.request({"op": "eval", "src": e, "want": ["multi", "typed"], "fuel": 1_000_000}, what=e)
+    dead_traces = [t for t in r.get("traces", []) if "DEAD" in str(t)]
+    if dead_traces or ("err" in r and r["err"].get("variant") == "ExplicitError" and r["err"]["detail"]["message"] == "DEAD"):
+        raise Violation("dead-element-evaluated", f"an element / field / argument nothing depends on was evaluated in {src}")
+    guard = tmpl.endswith("|| D") or tmpl.endswith("|| true")
+    if guard:
+        if "ok" not in r or r["ok"]["multi"].strip() != "true":
+            raise Violation("lazy-container-outcome", f"{src}: expected true, got {str(r)[:300]}")
+    elif "E" in tmpl:
+        if ("ok" in r) != ("ok" in r0):
+            raise Violation("lazy-container-outcome", f"{src}: outcome {str(r)[:200]} differs from the live expression's own outcome {str(r0)[:200]}")
+        if "ok" in r and r["ok"]["multi"] != r0["ok"]["multi"]:
+            raise Violation("lazy-container-outcome", f"{src} = {r['ok']['multi'][:200]}, the live expression alone = {r0['ok']['multi'][:200]}")
+        if "err" in r and (r["err"]["variant"], r["err"].get("detail")) != (r0["err"]["variant"], r0["err"].get("detail")):
+            raise Violation("lazy-container-outcome", f"{src}: error {r['err']['variant']} {r['err'].get('detail')}, the live expression alone {r0['err']['variant']} {r0['err'].get('detail')}")
+    return {"nontrivial": True, "labels": [tmpl[:20]], "sample": src[:200]}
+
+
 CHECKS = [
     Check("dead_code", check_dead, dead_case, quick=300, thorough=10000),
     Check("rewrites", check_rewrite, rewrite_case, quick=300, thorough=10000),
     Check("at_most_once", check_once, once_case, quick=150, thorough=3000),
+    Check("lazy_containers", check_lazy, lazy_case, quick=400, thorough=12000),
 ]
